@@ -146,3 +146,38 @@ pub proof fn lemma_ug_migrate_needs_upgrade(w0: World, steps: Seq<UgOp>, i: int)
         }
     }
 }
+
+// ---- non-vacuity: the hypotheses of the history lemmas are satisfiable ----
+pub proof fn lemma_ug_push(w0: World, steps: Seq<UgOp>, op: UgOp)
+    requires ug_valid(w0, steps), ug_guard(ug_run(w0, steps), op),
+    ensures ug_valid(w0, steps.push(op)), ug_run(w0, steps.push(op)) == ug_post(ug_run(w0, steps), op),
+{
+    assert(steps.push(op).drop_last() =~= steps);
+}
+/// upgrade; migrate — is a valid history from any state without a pending migration, and a second
+/// migrate right after it is not
+pub proof fn lemma_ug_witness(w0: World)
+    requires !is_migrating(w0),
+    ensures
+        //@@ C16:witness.upgrade_then_migrate_once
+        ug_valid(w0, seq![UgOp::Upgrade, UgOp::Migrate { w1: enable_post(w0) }]),
+        !ug_valid(w0, seq![UgOp::Upgrade, UgOp::Migrate { w1: enable_post(w0) }, UgOp::Migrate { w1: complete_post(enable_post(w0)) }]),
+        !ug_valid(w0, seq![UgOp::Migrate { w1: w0 }]),
+{
+    let s0 = Seq::<UgOp>::empty();
+    let m = UgOp::Migrate { w1: enable_post(w0) };
+    lemma_ug_push(w0, s0, UgOp::Upgrade);
+    lemma_ug_step(w0);
+    let s1 = s0.push(UgOp::Upgrade);
+    lemma_ug_push(w0, s1, m);
+    let s2 = s1.push(m);
+    assert(s2 =~= seq![UgOp::Upgrade, m]);
+    lemma_ug_step(enable_post(w0));
+    let m2 = UgOp::Migrate { w1: complete_post(enable_post(w0)) };
+    let s3 = seq![UgOp::Upgrade, m, m2];
+    assert(s3.drop_last() =~= s2);
+    assert(!ug_guard(ug_run(w0, s2), m2));
+    let t = seq![UgOp::Migrate { w1: w0 }];
+    assert(t.drop_last() =~= s0);
+    assert(!ug_guard(ug_run(w0, s0), t.last()));
+}
